@@ -305,6 +305,12 @@ def alphabets(thorough: bool):
         "\ufeffHello",
         "\ufeff",
         "\ufffe\ufeffx",
+        # characters a "tolerant" reader likes to trim: NUL / blank / line ends at either end (they are text like any other)
+        "abc\u0000",
+        "\u0000abc",
+        " abc ",
+        "abc\r\n",
+        "abc\u0000\u0000",
         "x" * 200,
         "�" * 200,
     ]
